@@ -23,9 +23,18 @@ ASSUMPTIONS = [
 SHARDS = {"quick": 1, "thorough": 16}
 
 
+def _lookalikes(classes):
+    """extra keyword names that merely LOOK like declared fields (stray blanks, other letter case, a suffix)"""
+    out = []
+    for f in list(classes)[:3]:
+        out += [f + " ", " " + f, "\t" + f, f.upper() if f.upper() != f else f.lower(), f + "_", f + "2"]
+    return [n for n in out if n not in classes]
+
+
 @st.composite
 def cases(draw):
-    sk = draw(gen.programs(min_splitters=1, max_splitters=3, conditional=True, max_groups=4, tricky=draw(st.booleans())))
+    sk = draw(gen.programs(min_splitters=1, max_splitters=draw(st.sampled_from([3, 3, 6])), conditional=True, max_groups=4,
+                           tricky=draw(st.booleans()), pool=gen.PLAIN_POOL + ["alpha", "Beta", "gamma_1", "d", "ee", "zeta9"]))
     prog, classes = sk["prog"], sk["classes"]
     iv = gen.interesting_values(prog, classes)
     inputs, alts = [], []
@@ -37,7 +46,7 @@ def cases(draw):
         inputs.append(M.enc_inputs(e1))
         alts.append(M.enc_inputs(e2))
     extra = {n: M.enc(draw(st.sampled_from(gen.ANY_POOL + [(1, 2), "uid", 99])))
-             for n in draw(st.lists(st.sampled_from(["unused_1", "zz_extra", "debug", "Uid", "salt_", "name", "weights", "population", "input_id", "cum_weights", "k",
+             for n in draw(st.lists(st.sampled_from(_lookalikes(classes) + ["unused_1", "zz_extra", "debug", "Uid", "salt_", "name", "weights", "population", "input_id", "cum_weights", "k",
                                                      "salt", "splitters", "key", "args"]),
                                     max_size=3, unique=True)) if n not in classes}
     return {"prog": prog, "classes": classes, "inputs": inputs, "alts": alts, "extra": extra,
@@ -70,8 +79,12 @@ def judge(case):
     renamed = dict(prog, name=case["newname"])
     ev_ren, res = _compile(renamed)
     sp = list(prog["splitters"])
-    perms = list(itertools.permutations(sp))
-    permuted = dict(prog, splitters=list(perms[case["perm"] % len(perms)]))
+    if len(sp) <= 4:
+        perms = list(itertools.permutations(sp))
+        permuted = dict(prog, splitters=list(perms[case["perm"] % len(perms)]))
+    else:
+        k = 1 + case["perm"] % (len(sp) - 1)
+        permuted = dict(prog, splitters=(sp[k:] + sp[:k])[::-1] if case["perm"] % 2 else sp[k:] + sp[:k])
     ev_perm, res2 = _compile(permuted)
     viol = []
     if ev_ren is None or ev_perm is None:
@@ -94,6 +107,7 @@ def judge(case):
             ("experiment renamed to %s" % case["newname"], sut.call(ev_ren, env)),
             ("splitters declared as %r" % (permuted["splitters"],), sut.call(ev_perm, env)),
             ("arguments passed in reverse order", sut.call(ev, dict(reversed(list(env.items()))))),
+            ("splitters declared in reverse order", sut.call(_compile(dict(prog, splitters=sp[::-1]))[0], env)),
         ]
         if extra:
             tags.append("twin:extra-kwargs")
@@ -131,8 +145,14 @@ def judge(case):
 def vary_cases(draw):
     ng = draw(st.integers(4, 8))
     ws = [str(draw(st.integers(1, 3))) for _ in range(ng)]
-    salts = draw(st.lists(st.sampled_from(["a", "b", "s1", "s2", "exp", "exp2", "A", " a", "a ", "é", "v1", "v2", "1", "2"]),
-                          min_size=2, max_size=2, unique=True))
+    if draw(st.integers(0, 2)) == 0:
+        # salts that differ only in their blanks / letter case / normal form / after a comment look-alike
+        salts = list(draw(st.sampled_from([("a b", "a  b"), ("a b", "a\tb"), ("x ", "x  "), ("checkout v2", "checkout  v2"), (" s", "s"),
+                                           ("s", "s "), ("Exp", "exp"), ("é", "é"), ("u//1", "u//2"), ("q", "q'"), ("ﬁ", "fi"),
+                                           ("p /* 1 */", "p /* 2 */")])))
+    else:
+        salts = draw(st.lists(st.sampled_from(["a", "b", "s1", "s2", "exp", "exp2", "A", " a", "a ", "é", "v1", "v2", "1", "2"]),
+                              min_size=2, max_size=2, unique=True))
     field = draw(st.sampled_from(["uid", "user_id", "k9"]))
     base = draw(st.integers(0, 10 ** 6))
     kind = draw(st.sampled_from(["int", "str", "padded"]))
